@@ -481,4 +481,385 @@ theorem rbigEq_spec (a b : QRepr) (ha : 0 < a.den) (hb : 0 < b.den)
       simp [hn, this]
     · simp [hn]
 
+
+-- ================================================================== floats (float/src/cmp.rs)
+
+theorem specFCmp_finite (B : Nat) (a b : FRepr) (ha : a.isInfinite = false) (hb : b.isInfinite = false) :
+    specFCmp B a b = cmpCase6 B a.signif a.exp b.signif b.exp := by
+  unfold specFCmp cmpCase6
+  simp only [ha, hb, Bool.false_and, Bool.false_eq_true, if_false]
+  by_cases h1 : a.exp = b.exp
+  · simp [h1]
+  · by_cases h2 : a.exp > b.exp
+    · have hm : min a.exp b.exp = b.exp := by omega
+      simp [h1, h2, hm]
+    · have hm : min a.exp b.exp = a.exp := by omega
+      simp [h1, h2, hm]
+
+theorem pow_cast (B k : Nat) : ((B ^ k : Nat) : Int) = (B : Int) ^ k := by push_cast; rfl
+
+theorem dominate_pos (B d k : Nat) (s1 s2 : Int) (hB : 2 ≤ B) (h1 : 0 < s1) (h2 : s2.natAbs < B ^ d)
+    (hk : d < k) : s2 < s1 * (B : Int) ^ k := by
+  have hlt : B ^ d < B ^ k := Nat.pow_lt_pow_right (by omega) hk
+  have hpos : 0 < B ^ k := Nat.pow_pos (by omega)
+  rw [← pow_cast]
+  have : ((B ^ k : Nat) : Int) ≤ s1 * ((B ^ k : Nat) : Int) := by
+    have := Int.mul_le_mul_of_nonneg_right (show (1 : Int) ≤ s1 by omega) (show (0 : Int) ≤ ((B ^ k : Nat) : Int) by omega)
+    simpa using this
+  omega
+
+theorem dominate_neg (B d k : Nat) (s1 s2 : Int) (hB : 2 ≤ B) (h1 : s1 < 0) (h2 : s2.natAbs < B ^ d)
+    (hk : d < k) : s1 * (B : Int) ^ k < s2 := by
+  have := dominate_pos B d k (-s1) (-s2) hB (by omega) (by simpa using h2) hk
+  have e : -s1 * (B : Int) ^ k = -(s1 * (B : Int) ^ k) := by ring
+  omega
+
+theorem fcmp3_dominate_left (B d : Nat) (hB : 2 ≤ B) (s1 e1 s2 e2 : Int) (hs1 : s1 ≠ 0)
+    (hsame : (s1 < 0) ↔ (s2 < 0)) (h2 : s2.natAbs < B ^ d) (he : e1 > e2 + d) :
+    cmpCase6 B s1 e1 s2 e2 = mulOrd (decide (s1 < 0)) .gt := by
+  unfold cmpCase6
+  have h1 : ¬ e1 = e2 := by omega
+  have h3 : e1 > e2 := by omega
+  simp only [h1, h3, if_false, if_true]
+  have hk : d < (e1 - e2).toNat := by omega
+  by_cases hn : s1 < 0
+  · simp only [hn, decide_true, mulOrd, if_true]
+    exact int_cmp_of_lt (dominate_neg B d _ s1 s2 hB hn h2 hk)
+  · simp only [hn, decide_false, mulOrd, Bool.false_eq_true, if_false]
+    exact int_cmp_of_gt (dominate_pos B d _ s1 s2 hB (by omega) h2 hk)
+
+theorem fcmp3_dominate_right (B d : Nat) (hB : 2 ≤ B) (s1 e1 s2 e2 : Int) (hs2 : s2 ≠ 0)
+    (hsame : (s1 < 0) ↔ (s2 < 0)) (h1 : s1.natAbs < B ^ d) (he : e2 > e1 + d) :
+    cmpCase6 B s1 e1 s2 e2 = mulOrd (decide (s1 < 0)) .lt := by
+  unfold cmpCase6
+  have h1' : ¬ e1 = e2 := by omega
+  have h3 : ¬ e1 > e2 := by omega
+  simp only [h1', h3, if_false]
+  have hk : d < (e2 - e1).toNat := by omega
+  by_cases hn : s1 < 0
+  · have hn2 : s2 < 0 := hsame.mp hn
+    simp only [hn, decide_true, mulOrd, if_true]
+    exact int_cmp_of_gt (dominate_neg B d _ s2 s1 hB hn2 h1 hk)
+  · have hn2 : ¬ s2 < 0 := fun h => hn (hsame.mpr h)
+    simp only [hn, decide_false, mulOrd, Bool.false_eq_true, if_false]
+    exact int_cmp_of_lt (dominate_pos B d _ s2 s1 hB (by omega) h1 hk)
+
+theorem int_pow_pos' (B k : Nat) (hB : 2 ≤ B) : (0 : Int) < (B : Int) ^ k := by
+  rw [← pow_cast]; exact_mod_cast Nat.pow_pos (by omega)
+
+theorem fcmp3_signs (B : Nat) (hB : 2 ≤ B) (s1 e1 s2 e2 : Int) (h1 : ¬ s1 < 0) (h2 : s2 < 0) :
+    cmpCase6 B s1 e1 s2 e2 = .gt := by
+  unfold cmpCase6
+  have hp := int_pow_pos' B (e1 - e2).toNat hB
+  have hq := int_pow_pos' B (e2 - e1).toNat hB
+  split
+  · exact int_cmp_of_gt (by omega)
+  · split
+    · have : 0 ≤ s1 * (B : Int) ^ (e1 - e2).toNat := Int.mul_nonneg (by omega) (by omega)
+      exact int_cmp_of_gt (by omega)
+    · have : s2 * (B : Int) ^ (e2 - e1).toNat < 0 := Int.mul_neg_of_neg_of_pos h2 hq
+      exact int_cmp_of_gt (by omega)
+
+theorem fcmp3_signs' (B : Nat) (hB : 2 ≤ B) (s1 e1 s2 e2 : Int) (h1 : s1 < 0) (h2 : ¬ s2 < 0) :
+    cmpCase6 B s1 e1 s2 e2 = .lt := by
+  unfold cmpCase6
+  have hp := int_pow_pos' B (e1 - e2).toNat hB
+  have hq := int_pow_pos' B (e2 - e1).toNat hB
+  split
+  · exact int_cmp_of_lt (by omega)
+  · split
+    · have : s1 * (B : Int) ^ (e1 - e2).toNat < 0 := Int.mul_neg_of_neg_of_pos h1 hp
+      exact int_cmp_of_lt (by omega)
+    · have : 0 ≤ s2 * (B : Int) ^ (e2 - e1).toNat := Int.mul_nonneg (by omega) (by omega)
+      exact int_cmp_of_lt (by omega)
+
+theorem fcmp3_zero_left (B : Nat) (hB : 2 ≤ B) (e1 s2 e2 : Int) (h2 : 0 < s2) :
+    cmpCase6 B 0 e1 s2 e2 = .lt := by
+  unfold cmpCase6
+  have hq := int_pow_pos' B (e2 - e1).toNat hB
+  split
+  · exact int_cmp_of_lt h2
+  · split
+    · rw [Int.zero_mul]; exact int_cmp_of_lt h2
+    · exact int_cmp_of_lt (Int.mul_pos h2 hq)
+
+theorem fcmp3_zero_right (B : Nat) (hB : 2 ≤ B) (s1 e1 e2 : Int) (h1 : 0 < s1) :
+    cmpCase6 B s1 e1 0 e2 = .gt := by
+  unfold cmpCase6
+  have hp := int_pow_pos' B (e1 - e2).toNat hB
+  split
+  · exact int_cmp_of_gt h1
+  · split
+    · exact int_cmp_of_gt (Int.mul_pos h1 hp)
+    · rw [Int.zero_mul]; exact int_cmp_of_gt h1
+
+theorem cmpCase56_spec (B : Nat) (hB : 2 ≤ B) (digitsUb : Int → Nat)
+    (hub : ∀ s : Int, s.natAbs < B ^ digitsUb s) (s1 e1 s2 e2 : Int) (hs1 : s1 ≠ 0) (hs2 : s2 ≠ 0)
+    (hsame : (s1 < 0) ↔ (s2 < 0)) :
+    cmpCase56 B digitsUb (decide (s1 < 0)) s1 e1 s2 e2 = cmpCase6 B s1 e1 s2 e2 := by
+  unfold cmpCase56
+  split
+  · rename_i h; exact (fcmp3_dominate_left B _ hB s1 e1 s2 e2 hs1 hsame (hub s2) h).symm
+  · split
+    · rename_i h; exact (fcmp3_dominate_right B _ hB s1 e1 s2 e2 hs2 hsame (hub s1) h).symm
+    · rfl
+
+theorem cmpCase4_spec (B : Nat) (hB : 2 ≤ B) (s1 e1 s2 e2 : Int) (hs1 : s1 ≠ 0) (hs2 : s2 ≠ 0)
+    (hsame : (s1 < 0) ↔ (s2 < 0)) (prec : Option (Nat × Nat))
+    (hprec : ∀ lp rp, prec = some (lp, rp) →
+      (lp ≠ 0 → s1.natAbs < B ^ lp) ∧ (rp ≠ 0 → s2.natAbs < B ^ rp))
+    (o : Ordering) (h : cmpCase4 (decide (s1 < 0)) e1 e2 prec = some o) :
+    o = cmpCase6 B s1 e1 s2 e2 := by
+  cases prec with
+  | none => simp [cmpCase4] at h
+  | some pr =>
+    obtain ⟨lp, rp⟩ := pr
+    have ⟨hp1, hp2⟩ := hprec lp rp rfl
+    simp only [cmpCase4] at h
+    split at h
+    · rename_i hnz
+      split at h
+      · rename_i hc
+        cases h
+        exact (fcmp3_dominate_left B rp hB s1 e1 s2 e2 hs1 hsame (hp2 hnz.2) hc).symm
+      · split at h
+        · rename_i hc
+          cases h
+          exact (fcmp3_dominate_right B lp hB s1 e1 s2 e2 hs2 hsame (hp1 hnz.1) hc).symm
+        · cases h
+    · cases h
+
+theorem cmp_tail_spec (B : Nat) (hB : 2 ≤ B) (digitsUb : Int → Nat)
+    (hub : ∀ s : Int, s.natAbs < B ^ digitsUb s) (s1 e1 s2 e2 : Int) (hs1 : s1 ≠ 0) (hs2 : s2 ≠ 0)
+    (hsame : (s1 < 0) ↔ (s2 < 0)) (prec : Option (Nat × Nat))
+    (hprec : ∀ lp rp, prec = some (lp, rp) →
+      (lp ≠ 0 → s1.natAbs < B ^ lp) ∧ (rp ≠ 0 → s2.natAbs < B ^ rp)) :
+    (match cmpCase4 (decide (s1 < 0)) e1 e2 prec with
+      | some o => o
+      | none => cmpCase56 B digitsUb (decide (s1 < 0)) s1 e1 s2 e2) = cmpCase6 B s1 e1 s2 e2 := by
+  split
+  · rename_i o h; exact cmpCase4_spec B hB s1 e1 s2 e2 hs1 hs2 hsame prec hprec o h
+  · exact cmpCase56_spec B hB digitsUb hub s1 e1 s2 e2 hs1 hs2 hsame
+
+/-- `repr_cmp_same_base` is the order of the values `signif · B^exp` (infinities at the ends),
+    PROVIDED each operand's significand has at most `precision` digits whenever a non-zero precision
+    is supplied (the invariant of `FBig`), and for ANY digit estimator that is an upper bound. -/
+theorem reprCmpSameBase_spec (B : Nat) (hB : 2 ≤ B) (digitsUb : Int → Nat)
+    (hub : ∀ s : Int, s.natAbs < B ^ digitsUb s)
+    (lhs rhs : FRepr) (prec : Option (Nat × Nat))
+    (hprec : ∀ lp rp, prec = some (lp, rp) →
+      (lp ≠ 0 → lhs.signif.natAbs < B ^ lp) ∧ (rp ≠ 0 → rhs.signif.natAbs < B ^ rp)) :
+    reprCmpSameBase B digitsUb lhs rhs prec = specFCmp B lhs rhs := by
+  unfold reprCmpSameBase
+  by_cases hli : lhs.isInfinite = true
+  · by_cases hri : rhs.isInfinite = true
+    · simp [specFCmp, hli, hri]
+    · simp [specFCmp, hli, hri]
+  · by_cases hri : rhs.isInfinite = true
+    · simp [specFCmp, hli, hri]
+    · have hli' : lhs.isInfinite = false := by simpa using hli
+      have hri' : rhs.isInfinite = false := by simpa using hri
+      rw [specFCmp_finite B lhs rhs hli' hri']
+      simp only [hli', hri', Bool.false_and, Bool.false_eq_true, if_false]
+      obtain ⟨s1, e1⟩ := lhs
+      obtain ⟨s2, e2⟩ := rhs
+      simp only [FRepr.isInfinite, Bool.and_eq_false_imp, beq_iff_eq, bne_eq_false_iff_eq] at hli' hri'
+      simp only [FRepr.isZero] at *
+      by_cases hn1 : s1 < 0 <;> by_cases hn2 : s2 < 0
+      · -- both negative: non-zero
+        have z1 : (s1 == 0) = false := by simp; omega
+        have z2 : (s2 == 0) = false := by simp; omega
+        have hsame : (s1 < 0) ↔ (s2 < 0) := by simp [hn1, hn2]
+        have key := cmp_tail_spec B hB digitsUb hub s1 e1 s2 e2 (by omega) (by omega) hsame prec hprec
+        simp only [hn1, decide_true] at key
+        simp only [hn1, hn2, decide_true, Bool.not_true, Bool.and_true, Bool.false_and, Bool.and_false,
+          Bool.false_eq_true, if_false, z1, z2]
+        exact key
+      · simp only [hn1, hn2, decide_true, decide_false, Bool.not_true, Bool.not_false, Bool.and_true,
+          Bool.false_and, Bool.and_false, Bool.false_eq_true, if_false, Bool.true_and, if_true]
+        exact (fcmp3_signs' B hB s1 e1 s2 e2 hn1 hn2).symm
+      · simp only [hn1, hn2, decide_true, decide_false, Bool.not_true, Bool.not_false, Bool.and_true,
+          Bool.true_and, if_true]
+        exact (fcmp3_signs B hB s1 e1 s2 e2 hn1 hn2).symm
+      · -- both non-negative
+        simp only [hn1, hn2, decide_false, Bool.not_false, Bool.and_false, Bool.false_and, Bool.and_true,
+          Bool.false_eq_true, if_false]
+        by_cases hz1 : s1 = 0
+        · subst hz1
+          have he1 : e1 = 0 := hli' rfl
+          subst he1
+          by_cases hz2 : s2 = 0
+          · subst hz2
+            have he2 : e2 = 0 := hri' rfl
+            subst he2
+            simp [cmpCase6]
+          · have z2 : (s2 == 0) = false := by simpa using hz2
+            simp only [z2, Bool.false_and, Bool.and_false, Bool.false_eq_true, if_false, beq_self_eq_true,
+              Bool.and_self, if_true]
+            exact (fcmp3_zero_left B hB 0 s2 e2 (by omega)).symm
+        · have z1 : (s1 == 0) = false := by simpa using hz1
+          by_cases hz2 : s2 = 0
+          · subst hz2
+            have he2 : e2 = 0 := hri' rfl
+            subst he2
+            simp only [z1, Bool.false_and, Bool.false_eq_true, if_false, beq_self_eq_true, Bool.and_self,
+              if_true]
+            exact (fcmp3_zero_right B hB s1 e1 0 (by omega)).symm
+          · have z2 : (s2 == 0) = false := by simpa using hz2
+            have hsame : (s1 < 0) ↔ (s2 < 0) := by simp [hn1, hn2]
+            have key := cmp_tail_spec B hB digitsUb hub s1 e1 s2 e2 hz1 hz2 hsame prec hprec
+            simp only [hn1, decide_false] at key
+            simp only [z1, z2, Bool.false_and, Bool.false_eq_true, if_false]
+            exact key
+
+
+-- ================================================================== float normalisation and equality
+
+theorem removeAll_spec (B : Nat) (hB : 2 ≤ B) (n : Nat) (hn : n ≠ 0) :
+    n = (removeAll B n).1 * B ^ (removeAll B n).2 ∧ (removeAll B n).1 % B ≠ 0 := by
+  induction n using Nat.strongRecOn with
+  | _ n ih =>
+    rw [removeAll]
+    split
+    · rename_i h
+      have hm : n % B ≠ 0 := by
+        rcases h with h | h | h
+        · exact absurd h hn
+        · omega
+        · exact h
+      exact ⟨by simp, hm⟩
+    · rename_i h
+      have hmod : n % B = 0 := by
+        by_contra hc; exact h (Or.inr (Or.inr hc))
+      have hlt : n / B < n := Nat.div_lt_self (by omega) (by omega)
+      have hdm := Nat.div_add_mod n B
+      have hq : n / B ≠ 0 := by
+        intro h0; rw [h0, hmod] at hdm; omega
+      have ⟨i1, i2⟩ := ih (n / B) hlt hq
+      generalize removeAll B (n / B) = p at *
+      obtain ⟨m, k⟩ := p
+      simp only at i1 i2 ⊢
+      refine ⟨?_, i2⟩
+      rw [Nat.pow_succ, ← Nat.mul_assoc, ← i1, Nat.mul_comm]
+      omega
+
+/-- canonical float representation: infinities are `0·B^(±1)`, zero is `0·B^0`, otherwise the
+    significand is not divisible by the base -/
+def FCanon (B : Nat) (r : FRepr) : Prop :=
+  (r.signif = 0 → r.exp = 0 ∨ r.exp = 1 ∨ r.exp = -1) ∧ (r.signif ≠ 0 → r.signif.natAbs % B ≠ 0)
+
+/-- `Repr::normalize` yields the canonical representation of the same value -/
+theorem normalize_spec (B : Nat) (hB : 2 ≤ B) (r : FRepr) :
+    FCanon B (r.normalize B) ∧ (r.normalize B).isInfinite = false ∧
+    (r.signif ≠ 0 → r.exp ≤ (r.normalize B).exp ∧
+      r.signif = (r.normalize B).signif * (B : Int) ^ ((r.normalize B).exp - r.exp).toNat) ∧
+    (r.signif = 0 → r.normalize B = ⟨0, 0⟩) := by
+  unfold FRepr.normalize
+  split
+  · rename_i h0
+    refine ⟨⟨fun _ => Or.inl rfl, fun h => absurd rfl h⟩, by simp [FRepr.isInfinite], fun h => absurd h0 h,
+      fun _ => rfl⟩
+  · rename_i h0
+    have hn : r.signif.natAbs ≠ 0 := by omega
+    have ⟨i1, i2⟩ := removeAll_spec B hB _ hn
+    generalize removeAll B r.signif.natAbs = p at *
+    obtain ⟨m, k⟩ := p
+    simp only at i1 i2 ⊢
+    have hm0 : m ≠ 0 := by intro h; subst h; simp at i2
+    refine ⟨⟨?_, ?_⟩, ?_, fun _ => ⟨by omega, ?_⟩, fun h => absurd h h0⟩
+    · intro h; exfalso
+      by_cases hneg : r.signif < 0 <;> simp [hneg] at h <;> omega
+    · intro _
+      by_cases hneg : r.signif < 0 <;> simp [hneg] <;> exact i2
+    · simp only [FRepr.isInfinite, Bool.and_eq_false_imp, beq_iff_eq]
+      intro h; exfalso
+      by_cases hneg : r.signif < 0 <;> simp [hneg] at h <;> omega
+    · have hk : (r.exp + (k : Int) - r.exp).toNat = k := by omega
+      rw [hk, ← pow_cast]
+      split
+      · rename_i hneg
+        have : r.signif = -((r.signif.natAbs : Nat) : Int) := by omega
+        rw [this, i1]; push_cast; ring
+      · rename_i hneg
+        have : r.signif = ((r.signif.natAbs : Nat) : Int) := by omega
+        rw [this, i1]; push_cast; ring
+
+theorem cmpCase6_eq_iff (B : Nat) (hB : 2 ≤ B) (s1 e1 s2 e2 : Int)
+    (z1 : s1 = 0 → e1 = 0) (z2 : s2 = 0 → e2 = 0)
+    (n1 : s1 ≠ 0 → s1.natAbs % B ≠ 0) (n2 : s2 ≠ 0 → s2.natAbs % B ≠ 0) :
+    cmpCase6 B s1 e1 s2 e2 = .eq ↔ (s1 = s2 ∧ e1 = e2) := by
+  have nodvd : ∀ (s t : Int) (k : Nat), 0 < k → t ≠ 0 → t.natAbs % B ≠ 0 → s * (B : Int) ^ k ≠ t := by
+    intro s t k hk ht hnd he
+    apply hnd
+    have : t.natAbs = s.natAbs * B ^ k := by
+      rw [← he, Int.natAbs_mul, ← pow_cast, Int.natAbs_natCast]
+    rw [this, show k = (k - 1) + 1 by omega, Nat.pow_succ, ← Nat.mul_assoc]
+    exact Nat.mul_mod_left _ _
+  unfold cmpCase6
+  constructor
+  · intro h
+    split at h
+    · rename_i he; exact ⟨Int.compare_eq_eq.mp h, he⟩
+    · split at h
+      · rename_i hne hgt
+        exfalso
+        have hcmp := Int.compare_eq_eq.mp h
+        have hk : 0 < (e1 - e2).toNat := by omega
+        by_cases hz : s2 = 0
+        · subst hz
+          have hp := int_pow_pos' B (e1 - e2).toNat hB
+          have : s1 = 0 := by
+            rcases Int.mul_eq_zero.mp hcmp with h' | h'
+            · exact h'
+            · omega
+          have := z1 this; have := z2 rfl; omega
+        · exact nodvd s1 s2 _ hk hz (n2 hz) hcmp
+      · rename_i hne hgt
+        exfalso
+        have hcmp := Int.compare_eq_eq.mp h
+        have hk : 0 < (e2 - e1).toNat := by omega
+        by_cases hz : s1 = 0
+        · subst hz
+          have hp := int_pow_pos' B (e2 - e1).toNat hB
+          have : s2 = 0 := by
+            rcases Int.mul_eq_zero.mp hcmp.symm with h' | h'
+            · exact h'
+            · omega
+          have := z2 this; have := z1 rfl; omega
+        · exact nodvd s2 s1 _ hk hz (n1 hz) hcmp.symm
+  · rintro ⟨rfl, rfl⟩
+    simp
+
+/-- `FBig ==` (structural on the normalised representation, infinities by sign) holds exactly when
+    the values are equal, i.e. exactly when the comparison says `Equal` -/
+theorem fbigEq_iff (B : Nat) (hB : 2 ≤ B) (a b : FRepr) (ha : FCanon B a) (hb : FCanon B b) :
+    fbigEq a b = true ↔ specFCmp B a b = .eq := by
+  obtain ⟨s1, e1⟩ := a
+  obtain ⟨s2, e2⟩ := b
+  obtain ⟨az, an⟩ := ha
+  obtain ⟨bz, bn⟩ := hb
+  simp only at az an bz bn
+  by_cases hi1 : (FRepr.mk s1 e1).isInfinite = true <;> by_cases hi2 : (FRepr.mk s2 e2).isInfinite = true
+  · -- both infinite: exponents are ±1
+    have h1 : s1 = 0 ∧ e1 ≠ 0 := by simpa [FRepr.isInfinite] using hi1
+    have h2 : s2 = 0 ∧ e2 ≠ 0 := by simpa [FRepr.isInfinite] using hi2
+    have := az h1.1; have := bz h2.1
+    simp only [fbigEq, specFCmp, hi1, hi2, Bool.and_self, if_true, Int.compare_eq_eq]
+    constructor
+    · intro h; simp at h; omega
+    · intro h; subst h; simp
+  · simp [fbigEq, specFCmp, hi1, hi2]
+    split <;> simp
+  · simp [fbigEq, specFCmp, hi1, hi2]
+    split <;> simp
+  · have hf1 : (FRepr.mk s1 e1).isInfinite = false := by simpa using hi1
+    have hf2 : (FRepr.mk s2 e2).isInfinite = false := by simpa using hi2
+    rw [specFCmp_finite B _ _ hf1 hf2]
+    have z1 : s1 = 0 → e1 = 0 := by
+      intro h; simp [FRepr.isInfinite, h] at hf1; exact hf1
+    have z2 : s2 = 0 → e2 = 0 := by
+      intro h; simp [FRepr.isInfinite, h] at hf2; exact hf2
+    rw [cmpCase6_eq_iff B hB s1 e1 s2 e2 z1 z2 an bn]
+    simp [fbigEq, hf1, hf2]
+
 end Dashu.Model
